@@ -487,6 +487,81 @@ def merge_strs(items):
         else: out.append(i)
     return out
 
+# ------------------------------------------------------------------------------------------ part 5: the scanner on raw ASCII strings
+
+SOUP = list("$$$$;;..(())[[]]''\"\"\\  \n\tab_x1%,=")
+
+FIXED_RAW = ['$', '$$', '$$$', 'a$', '$x', '$x;', '$x ;', '$x . y', '$x .', '$(', '$()', '$(()', "$(')')", "$('''a)''')", "$('\\')')", '$x[(])', '$x([)])',
+             '$("\\\n")', "$('a\nb')", "$(''')", '$x (1) [2] .z ;rest', "$f('('", '$x\x0b.y', '$_', '$1', '$ x', '$x$y', '$x$$', "$x''", "$x'(", '$x.y.z(a)[b].c;;',
+             '$x\x1c;', '$(""")""")', "$('\\", '$x.\n y', '$x(\'\'\'\')', '$a.b c', '$(a)(b)[c].d ;']
+
+def gen_raw_strings(rng, pool, n):
+    out = []
+    ascii_pool = [render(t) for t in pool if t and all(ord(c) < 128 for c in render(t))]
+    for _ in range(n):
+        k = rng.random()
+        if k < 0.35 and ascii_pool:
+            out.append(rng.choice(ascii_pool))
+        elif k < 0.7 and ascii_pool:
+            s = list(rng.choice(ascii_pool))
+            for _ in range(rng.choice([1, 1, 2, 3])):
+                i = rng.randrange(len(s) + 1)
+                if s and rng.random() < 0.4: del s[min(i, len(s) - 1)]
+                else: s.insert(i, rng.choice("$;.()[]'\"\\ \n"))
+            out.append(''.join(s))
+        else:
+            out.append(''.join(rng.choice(SOUP) for _ in range(rng.choice([1, 2, 3, 5, 8, 12, 16]))))
+    return [x for x in out + FIXED_RAW if x]
+
+def part_scanner(ctx, rng, pool):
+    from pony.utils import parse_expr
+    strings = gen_raw_strings(rng, pool, ctx.scale(600, 8000))
+    reqs = []
+    for st in strings:
+        reqs.append({'op': 'scan', 's': st, 'style': 'qmark'})
+        i = st.find('$')
+        reqs.append({'op': 'parseexpr', 's': st[i + 1:] if i >= 0 else st})
+    outs = ctx.driver('C30', reqs) if ctx.driver.ok else None
+    if outs is None: return
+    for k, st in enumerate(strings):
+        m_scan, m_pe = outs[2 * k], outs[2 * k + 1]
+        i = st.find('$'); sub = st[i + 1:] if i >= 0 else st
+        try: real_pe = {'ok': parse_expr(sub, 0)[0]}
+        except ValueError: real_pe = {'error': 'ValueError'}
+        except Exception as e: real_pe = {'error': type(e).__name__}
+        ctx.case(['parse_expr', sub], kind='scanner:parse_expr:' + ('ok' if 'ok' in real_pe else real_pe['error']))
+        if m_pe != real_pe:
+            ctx.divergence('parse_expr: model and real code disagree', {'s': sub}, model=m_pe, impl=real_pe)
+        # adapt_sql on the raw string
+        core.adapted_sql_cache.clear()
+        try: real_a = {'ok': adapt_sql(st, 'qmark')[0]}
+        except (SyntaxError, TypeError, MemoryError, RecursionError) as e: real_a = {'compile': type(e).__name__}    # the expression text is not Python: outside the scanner
+        except Exception as e: real_a = {'error': type(e).__name__}
+        ctx.case(['scan', st], kind='scanner:adapt_sql:' + ('ok' if 'ok' in real_a else real_a.get('error') or 'compile-check'))
+        if 'compile' not in real_a:
+            m = {'ok': m_scan['adapted']['sql']} if 'toks' in m_scan else {'error': m_scan['scan']['error']}
+            if m != real_a:
+                ctx.divergence('adapt_sql on a raw statement: model scanner and real code disagree', {'sql': st}, model=m, impl=real_a)
+        # parse_raw_sql on the raw string (the second implementation of the same loop)
+        ormtypes.raw_sql_cache.clear()
+        try:
+            items, codes = parse_raw_sql(st)
+            real_r = {'items': [x if isinstance(x, str) else {'expr': x[0]} for x in items], 'n': len(codes)}
+        except (SyntaxError, MemoryError, RecursionError) as e: real_r = {'compile': type(e).__name__}
+        except Exception as e: real_r = {'error': type(e).__name__}
+        if 'compile' not in real_r:
+            mr = m_scan['raw']
+            m = {'items': mr['items'], 'n': len(mr['exprs'])} if 'items' in mr else {'error': mr['error']}
+            if m != real_r:
+                ctx.divergence('parse_raw_sql on a raw statement: model and real code disagree', {'sql': st}, model=m, impl=real_r)
+            # one grammar, two implementations: both must cut the same text into the same pieces (property oracle on the real code)
+            if 'ok' in real_a and 'items' in real_r:
+                via_raw = ''.join(x if isinstance(x, str) else '?' for x in real_r['items'])
+                if via_raw != real_a['ok']:
+                    ctx.violation('adapt_sql and parse_raw_sql cut the same text into different pieces', {'sql': st},
+                                  observed={'adapt_sql': real_a['ok'], 'parse_raw_sql': real_r['items']}, expected='the same text / expression boundaries', key='two-scanners:' + st)
+    core.adapted_sql_cache.clear(); ormtypes.raw_sql_cache.clear()
+
 # ------------------------------------------------------------------------------------------ malformed input (observed, not judged)
 
 def part_malformed(ctx):
@@ -527,6 +602,7 @@ def run(ctx):
     part_cache(ctx, rng, [t for t in pool if t] + [c[0] for c in cases[:8] if c[0]])
     part_api(ctx, rng)
     part_raw(ctx, pool[:ctx.scale(150, 1500)])
+    part_scanner(ctx, rng, pool)
     part_malformed(ctx)
     core.adapted_sql_cache.clear(); ormtypes.raw_sql_cache.clear()
     if not ctx.driver.ok: ctx.note('driver unavailable: the model tie was skipped, only the oracle on the real code ran')
